@@ -651,6 +651,47 @@ theorem batched_itemwise (o : Norm) (lg : Bool) (pdim kk : Nat) (clouds : List (
     (knnBatch topk o lg kk pairs)[b]? = (pairs[b]?).map (fun p => knn topk o lg kk p.1 p.2) := by
   simp [knnFilterBatch, knnBatch]
 
+/-- **error paths are atomic / copies are independent / grad mode is irrelevant** — all three are the purity of the
+model: the results of a history with one more call `c` inserted anywhere (a call that fails, `evalCall … c = none`, a call
+on a copy, the same call in another grad mode) are the results of the history without it, plus `c`'s own result at its
+place. -/
+theorem history_atomic (tr : ℝ → Int) (uniq : List (List Int) → List (List Int)) (h₁ h₂ : List (Call ℝ)) (c : Call ℝ) :
+    runHistory topk tr uniq (h₁ ++ c :: h₂)
+      = runHistory topk tr uniq h₁ ++ evalCall topk tr uniq c :: runHistory topk tr uniq h₂ ∧
+    (runHistory topk tr uniq (h₁ ++ c :: h₂)).eraseIdx h₁.length = runHistory topk tr uniq (h₁ ++ h₂) := by
+  have e : runHistory topk tr uniq (h₁ ++ c :: h₂)
+      = runHistory topk tr uniq h₁ ++ evalCall topk tr uniq c :: runHistory topk tr uniq h₂ := by
+    simp [runHistory]
+  refine ⟨e, ?_⟩
+  rw [e]
+  have hl : (runHistory topk tr uniq h₁).length = h₁.length := by simp [runHistory]
+  rw [← hl, List.eraseIdx_append_of_length_le (Nat.le_refl _)]
+  simp [runHistory]
+
+/-- the failing calls of `knn_filter` / `random_filter` are exactly the documented ones (`N < k+1`, `num > N`) and the
+other two filters never fail in the model -/
+theorem failing_calls (tr : ℝ → Int) (uniq : List (List Int) → List (List Int)) (c : Call ℝ) :
+    evalCall topk tr uniq c = none ↔
+      (∃ o pdim kk radius pts, c = .knnf o pdim kk radius pts ∧ pts.length < kk + 1) ∨
+      (∃ perm num pts, c = .randf perm num pts ∧ pts.length < num) := by
+  cases c with
+  | nbr o pdim radius n pts => simp [evalCall]
+  | knnf o pdim kk radius pts =>
+    simp only [evalCall, knn_filter_defined]
+    constructor
+    · intro h; exact Or.inl ⟨o, pdim, kk, radius, pts, rfl, h⟩
+    · rintro (⟨_, _, _, _, _, e, h⟩ | ⟨_, _, _, e, _⟩)
+      · cases e; exact h
+      · cases e
+  | voxel vox pts => simp [evalCall]
+  | randf perm num pts =>
+    simp only [evalCall, random_filter_defined]
+    constructor
+    · intro h; exact Or.inr ⟨perm, num, pts, rfl, h⟩
+    · rintro (⟨_, _, _, _, _, e, _⟩ | ⟨_, _, _, e, h⟩)
+      · cases e
+      · cases e; exact h
+
 /-! ## non-vacuity: the hypotheses used above are satisfiable by non-trivial values -/
 
 /-- a `topk` kernel meeting the contract exists: the driver's stand-in (stable merge sort) -/
